@@ -13,9 +13,18 @@ The translator is `&mut`: its methods run in `TrM σ ε = StateT σ (Except (TrE
 ORDER of the calls (right-to-left post-order) is part of every statement.  `chk` stands for
 `Miniscript::from_ast` in the target context (type check + `Ctx::check_global_validity`).
 
-All theorems are for EVERY miniscript `ms` (no bound on size, depth, threshold width).
+Policies (Model/TranslatePolicy.lean), section P below:
+  polTranslate    ↔ `policy::concrete::Policy::translate_pk` and (on policies without `and` / `or`
+                    nodes, `PPol.isSemantic`) `policy::semantic::Policy::translate_pk`: fold over
+                    `rtl_post_order_iter`, `And`: n pops, `Or`: weight of the ORIGINAL child at
+                    that position with the popped child, `Thresh`: `map_ref` pops, k kept
+  translateUnsat  ↔ `Concrete::translate_unsatisfiable_pk`
+  polForEachKey / polForAnyKey / polKeys ↔ `ForEachKey for Policy` (both types), `Concrete::keys`
+
+All theorems are for EVERY miniscript `ms` / policy `p` (no bound on size, depth, width).
 -/
 import MsVerif.Lemmas.TranslateEncode
+import MsVerif.Lemmas.TranslatePolicy
 
 namespace MsVerif.C20
 open MsVerif MsVerif.TreeWalk MsVerif.CmpEq MsVerif.TranslateLemmas MsVerif.TranslateEncode
@@ -183,5 +192,109 @@ theorem keys_translate (f : Key → Key) (g : HashKind → Nat → Nat) (ms : Ms
 example : w.iterPkLit = [0, 1, 2, 3, 4, 5] := by decide
 example : forEachKey (fun k => k != 3) w = ([0, 1, 2, 3], false) := by decide
 example : forAnyKey (fun k => k == 4) w = ([0, 1, 2, 3, 4], true) := by decide
+
+/-! ## P — policies (concrete and semantic) -/
+
+section Policies
+open MsVerif.TranslatePolicy
+
+/-- `or(9@pk(0), 1@and(pk(1), thresh(2, pk(2), sha256(0), pk(0), older(5))))`: unequal odds,
+mixed connectives, k < n, a repeated key -/
+def wp : PPol :=
+  .or (.cons 9 (.key 0) (.cons 1 (.and (.cons 0 (.key 1) (.cons 0
+    (.thresh 2 (.cons 0 (.key 2) (.cons 0 (.hash .sha256 0) (.cons 0 (.key 0) (.cons 0 (.older 5) .nil)))))
+    .nil))) .nil))
+
+/-- P1 (main): for every translator (stateful, fallible) and every policy, the fold over the
+right-to-left post-order with a stack equals the structural translation `PPol.trRtl`: same
+result, same errors, same order of translator calls; no `pop().unwrap()` panics; every `or`
+weight stays attached to the child at its position, every `thresh` keeps its k -/
+theorem policy_translate_is_map (t : Translator σ ε) (p : PPol) :
+    polTranslate t p = p.trRtl t := polTranslate_eq t p
+
+/-- P1 for a pure total mapping: the translation always succeeds and is `PPol.mapKeys` -/
+theorem policy_translate_pure (f : Key → Key) (g : HashKind → Nat → Nat) (p : PPol) :
+    polTranslate (pureT (σ := σ) (ε := ε) f g) p = pure (p.mapKeys f g) := by
+  rw [policy_translate_is_map, TranslatePolicy.trRtl_pure]
+
+/-- structure is preserved exactly: tree shape, node kinds, `or` weights in the same positions,
+thresholds k, locks and hash kinds of the translated policy are those of the original -/
+theorem policy_structure_preserved (f : Key → Key) (g : HashKind → Nat → Nat) (p : PPol) :
+    (p.mapKeys f g).skeleton = p.skeleton := by
+  unfold PPol.skeleton; rw [TranslatePolicy.mapKeys_comp]; rfl
+
+/-- a semantic policy (no `and` / `or` nodes) translates to a semantic policy: the model of
+`Concrete::translate_pk` restricted to thresholds is the model of `Semantic::translate_pk` -/
+theorem policy_semantic_closed (f : Key → Key) (g : HashKind → Nat → Nat) (p : PPol) :
+    (p.mapKeys f g).isSemantic = p.isSemantic := isSemantic_mapKeys f g p
+
+/-- a translation fails ONLY IF the mapping fails, with the error of the FIRST failing atom in
+the code's visiting order `p.atomsRtl` (right-to-left post-order); otherwise it is `mapKeys` -/
+theorem policy_translate_first_failure (f : Key → Except ε Key) (g : HashKind → Nat → Except ε Nat)
+    (p : PPol) :
+    polTranslate (statelessT (σ := σ) f g) p =
+      match firstErr (p.atomsRtl.map (atomRes f g)) with
+      | some e => throw (.translatorErr e)
+      | none => pure (p.mapKeys (fOr f) (gOr g)) := by
+  rw [policy_translate_is_map, TranslatePolicy.trRtl_stateless]; rfl
+
+example : wp.atomsRtl = [.key 0, .hash .sha256 0, .key 2, .key 1, .key 0] := by decide
+example : firstErr (wp.atomsRtl.map (atomRes failOn24 (fun _ h => .ok h))) = some 2 := by decide
+
+/-- identity mapping yields an equal policy -/
+theorem policy_translate_identity (p : PPol) :
+    polTranslate (pureT (σ := σ) (ε := ε) id (fun _ h => h)) p = pure p := by
+  rw [policy_translate_pure, TranslatePolicy.mapKeys_id]
+
+/-- translation composes -/
+theorem policy_translate_compose (f f' : Key → Key) (g g' : HashKind → Nat → Nat) (p : PPol) :
+    (polTranslate (pureT (σ := σ) (ε := ε) f g) p >>= polTranslate (pureT f' g'))
+      = polTranslate (pureT (f' ∘ f) (fun kind h => g' kind (g kind h))) p := by
+  rw [policy_translate_pure f g]
+  simp only [pure_bind]
+  rw [policy_translate_pure, policy_translate_pure, TranslatePolicy.mapKeys_comp]
+
+example : (wp.mapKeys (· + 1) (fun _ h => h)).mapKeys (· % 2) (fun _ h => h + 1)
+    = wp.mapKeys (fun k => (k + 1) % 2) (fun _ h => h + 1) := by decide
+example : wp.mapKeys (· % 2) (fun _ h => h) =
+    .or (.cons 9 (.key 0) (.cons 1 (.and (.cons 0 (.key 1) (.cons 0
+      (.thresh 2 (.cons 0 (.key 0) (.cons 0 (.hash .sha256 0) (.cons 0 (.key 0) (.cons 0 (.older 5) .nil)))))
+      .nil))) .nil)) := by decide
+
+/-- `translate_unsatisfiable_pk(key)` never panics and replaces exactly the `pk(key)` leaves
+by `UNSATISFIABLE`; everything else (other keys, weights, k, shape) is untouched -/
+theorem policy_translate_unsatisfiable (key : Key) (p : PPol) :
+    translateUnsat key p = .ok (p.replaceKey key) := translateUnsat_eq key p
+
+example : translateUnsat 0 wp =
+    .ok (.or (.cons 9 .unsat (.cons 1 (.and (.cons 0 (.key 1) (.cons 0
+      (.thresh 2 (.cons 0 (.key 2) (.cons 0 (.hash .sha256 0) (.cons 0 .unsat (.cons 0 (.older 5) .nil)))))
+      .nil))) .nil))) := policy_translate_unsatisfiable 0 wp
+
+/-- `for_each_key(pred)` (both policy types) calls `pred` on the keys in pre-order (= the order
+of the printed form) and stops at the first key that fails -/
+theorem policy_for_each_key_eq_keys (pred : Key → Bool) (p : PPol) :
+    polForEachKey pred p = allVisit pred p.keys := by
+  unfold polForEachKey PPol.keys
+  rw [TranslatePolicy.preOrder_eq, polAllLoop_eq]
+
+theorem policy_for_any_key_eq_keys (pred : Key → Bool) (p : PPol) :
+    polForAnyKey pred p = ((allVisit (fun k => !pred k) p.keys).1, !(allVisit (fun k => !pred k) p.keys).2) := by
+  unfold polForAnyKey
+  rw [policy_for_each_key_eq_keys]
+
+/-- `Concrete::keys()` is exactly the key list of the printed form, with multiplicity -/
+theorem policy_keys_eq (p : PPol) : polKeys p = p.keys := polKeys_eq p
+
+/-- the translated policy has the substituted key list (same positions and multiplicities) -/
+theorem policy_keys_translate (f : Key → Key) (g : HashKind → Nat → Nat) (p : PPol) :
+    polKeys (p.mapKeys f g) = (polKeys p).map f := by
+  rw [policy_keys_eq, policy_keys_eq]
+  exact TranslatePolicy.keysPre_mapKeys f g p
+
+example : polKeys wp = [0, 1, 2, 0] := by decide
+example : polForEachKey (fun k => k != 2) wp = ([0, 1, 2], false) := by decide
+
+end Policies
 
 end MsVerif.C20
